@@ -108,6 +108,8 @@ pub trait DynM {
 	fn peek(&self) -> Option<Out>;
 	fn boxed_clone(&self) -> Box<dyn DynM>;
 	fn snapshot(&self) -> String;
+	/// round trip through the in-memory format (floats native: NaN fields survive)
+	fn mem_roundtrip(&self) -> Result<Box<dyn DynM>, String>;
 	fn mname(&self) -> String;
 }
 
@@ -155,6 +157,9 @@ macro_rules! dynm {
 			fn snapshot(&self) -> String {
 				serde_json::to_string(self).unwrap()
 			}
+			fn mem_roundtrip(&self) -> Result<Box<dyn DynM>, String> {
+				crate::memfmt::from_value::<$ty>(crate::memfmt::to_value(self)).map(|m| Box::new(m) as Box<dyn DynM>).map_err(|e| e.to_string())
+			}
 			fn mname(&self) -> String {
 				Method::name(self).to_string()
 			}
@@ -173,6 +178,9 @@ macro_rules! dynm {
 			}
 			fn snapshot(&self) -> String {
 				serde_json::to_string(self).unwrap()
+			}
+			fn mem_roundtrip(&self) -> Result<Box<dyn DynM>, String> {
+				crate::memfmt::from_value::<$ty>(crate::memfmt::to_value(self)).map(|m| Box::new(m) as Box<dyn DynM>).map_err(|e| e.to_string())
 			}
 			fn mname(&self) -> String {
 				Method::name(self).to_string()
